@@ -16,6 +16,14 @@
 
 #include "internal/typeutil_i.h"
 
+// Verification hooks, off unless EVENTPP_VERIF is defined: no-op markers at the places where shared state
+// is touched without a Threading policy object in sight, so that a controlled scheduler can observe them.
+#ifdef EVENTPP_VERIF
+#include "eventpp_verif_hooks.h"
+#else
+#define EVENTPP_VERIF_POINT(tag) ((void)0)
+#endif
+
 #include <atomic>
 #include <condition_variable>
 #include <map>
